@@ -35,14 +35,18 @@ type Program struct {
 	NFiles     int
 	Whole      bool // LoadAllSyntax (thorough)
 
-	cg         *CallGraph
-	sums       map[*ssa.Function]*FnSummary
-	provMem    map[provKey]Prov
-	provBusy   map[provKey]bool
-	storeFx    map[*ssa.Function]*storeFnInfo
-	blockReach map[*ssa.BasicBlock]map[*ssa.BasicBlock]bool
-	paramMins  map[string]map[string]int64
-	absCache   map[*ssa.Function]absCached
+	cg               *CallGraph
+	sums             map[*ssa.Function]*FnSummary
+	provMem          map[provKey]Prov
+	provBusy         map[provKey]bool
+	storeFx          map[*ssa.Function]*storeFnInfo
+	storeHelperDepth int
+	lift             map[liftKey]ssa.CallInstruction
+	liftDepth        int
+	paramFn          map[*ssa.Parameter][]*ssa.Function
+	blockReach       map[*ssa.BasicBlock]map[*ssa.BasicBlock]bool
+	paramMins        map[string]map[string]int64
+	absCache         map[*ssa.Function]absCached
 }
 
 // LoadConfig controls Load.
